@@ -298,6 +298,9 @@ def run(ctx, P, a):
         "broken_obligations": [b["what"] for b in broken],
     }
     coverage.update(ctx.extra)
+    if "dt_cases" in ctx.extra:
+        coverage["distinct_nontrivial"] = ctx.extra["dt_cases"]
+        coverage["samples"] = ctx.extra.get("dt_samples", samples)
     core.write_evidence(ctx, "proof", coverage, list(getattr(P, "ASSUMPTIONS", [])), violations)
     if verdict_line:
         print(verdict_line)
